@@ -16,6 +16,18 @@ theorem finishParse_ok {toks : Array PTok} {ctx : List Name} {term : Src} {next 
       cases hc : collectErrors term <;> simp_all
     simp [h3] at h
 
+/-- `finishParse` answers `.errors es` only with a list it has just tested to be non-empty. -/
+theorem finishParse_errors_ne {toks : Array PTok} {ctx : List Name} {term : Src} {next : Nat}
+    {es : List PErr} (h : finishParse toks ctx term next = .errors es) : es ≠ [] := by
+  unfold finishParse at h
+  simp only at h
+  repeat' split at h
+  all_goals first | (exact ParseOutcome.noConfusion h) | skip
+  all_goals
+    rename_i h1
+    injection h with h; subst h
+    intro e; rw [e] at h1; simp at h1
+
 /-- The binary operators a re-association pass treats as chain links (the guard of the chain arm
 of `reassoc`). -/
 def Family.owns (fam : Family) (o : BinOp) : Prop :=
